@@ -710,98 +710,40 @@ func ruleHandOff(c *Check, p *Program, rule string) {
 			}
 			n++
 			c.Sites++
-			// the data argument is a slice of a phi whose loop-carried value is a Get() result unless sequential or done
-			data := ci.Common().Args[1]
-			var ph *ssa.Phi
-			walkBack(data, false, func(v ssa.Value) bool {
-				if x, ok := v.(*ssa.Phi); ok && ph == nil {
-					if _, isSl := x.Type().Underlying().(*types.Slice); isSl {
-						ph = x
-					}
+			// explored over (block, "the current buffer has been handed over", boolean loop variables) under the
+			// concurrent-mode assumption: Writer.write raises the bit, a fresh pool buffer clears it; the next read of
+			// the source must not find it set
+			ok := true
+			why := ""
+			seqEdge := func(b *ssa.BasicBlock, k int) bool {
+				ifi, isIf := b.Instrs[len(b.Instrs)-1].(*ssa.If)
+				if !isIf || len(b.Succs) != 2 {
 					return false
 				}
-				return true
+				a := atomOf(ifi.Cond, k == 0)
+				return a.Kind == "call" && strings.HasSuffix(a.Name, "isNotConcurrent") && a.Val
+			}
+			exploreBoolStatesStep(rf, nil, seqEdge, func(in ssa.Instruction, handed bool) bool {
+				x, isCall := in.(ssa.CallInstruction)
+				if !isCall {
+					return handed
+				}
+				if _, isDefer := in.(*ssa.Defer); isDefer {
+					return handed
+				}
+				switch {
+				case calleeIs(x, pkgRoot, "Writer.write"):
+					return true
+				case calleeIs(x, pkgBlock, "BlockSizeIndex.Get"):
+					return false
+				case calleeIs(x, "io", "ReadFull") || calleeIs(x, "io", "ReadAtLeast") || callReaches(x, func(y ssa.CallInstruction) bool { return calleeIs(y, "io", "ReadFull") }):
+					if handed {
+						ok = false
+						why = "the source is read again at " + p.InstrPos(in) + " into a buffer that Writer.write has handed to a compression goroutine (concurrent mode, no fresh pool buffer taken in between)"
+					}
+				}
+				return handed
 			})
-			ok := false
-			why := "no loop-carried buffer found"
-			if ph == nil {
-				// the buffer variable lives in a cell (it is captured by a function literal): decide the weaker,
-				// shape-independent form: a fresh buffer is drawn from the pool after the hand-over, in
-				// concurrent mode, before the source is read again
-				for _, cj := range callsIn(rf) {
-					if !calleeIs(cj, pkgBlock, "BlockSizeIndex.Get") || cj == ci {
-						continue
-					}
-					conc := false
-					for _, a := range atomsOfBlock(cj.Block()) {
-						if a.Kind == "call" && strings.HasSuffix(a.Name, "isNotConcurrent") && !a.Val {
-							conc = true
-						}
-					}
-					after, _ := reachAvoid(rf, ci.(ssa.Instruction), func(in ssa.Instruction) bool { return in == cj.(ssa.Instruction) }, nil)
-					if conc && after {
-						ok = true
-					}
-				}
-				why = "no fresh pool buffer is taken in concurrent mode after the hand-over"
-			}
-			if ph != nil {
-				ok = true
-				for i, e := range ph.Edges {
-					pred := ph.Block().Preds[i]
-					if call, isC := e.(*ssa.Call); isC && (calleeIs(call, pkgBlock, "BlockSizeIndex.Get")) {
-						continue
-					}
-					// carrying the same buffer around the loop is only allowed on sequential edges
-					if inner, isPhi := e.(*ssa.Phi); isPhi {
-						for k, ee := range inner.Edges {
-							if call, isC := ee.(*ssa.Call); isC && calleeIs(call, pkgBlock, "BlockSizeIndex.Get") {
-								continue
-							}
-							if ee == ph {
-								ats := edgeAtoms(inner.Block().Preds[k], inner.Block())
-								seq := false
-								for _, a := range ats {
-									if a.Kind == "call" && strings.HasSuffix(a.Name, "isNotConcurrent") && a.Val {
-										seq = true
-									}
-									if a.Kind == "other" && a.Name == "phi" {
-										// `done` flag: the loop exits
-									}
-								}
-								// !done && !sequential must lead to Get(): the reuse edge must carry done or sequential
-								doneEdge := false
-								for _, l := range guardsOf(inner.Block().Preds[k]) {
-									_ = l
-								}
-								for _, a := range ats {
-									if a.Kind == "other" && a.Val {
-										doneEdge = true
-									}
-								}
-								if !seq && !doneEdge {
-									ok = false
-									why = "the buffer handed to a worker is reused for the next read on a concurrent, not-done path"
-								}
-							}
-						}
-						continue
-					}
-					if e == ph {
-						ats := edgeAtoms(pred, ph.Block())
-						seq := false
-						for _, a := range ats {
-							if a.Kind == "call" && strings.HasSuffix(a.Name, "isNotConcurrent") && a.Val {
-								seq = true
-							}
-						}
-						if !seq {
-							ok = false
-							why = "the buffer handed to a worker is reused for the next read in concurrent mode"
-						}
-					}
-				}
-			}
 			c.Cond(ok, rule, "Writer.ReadFrom#handoff", p.InstrPos(ci), "in ReadFrom a buffer handed to a compression goroutine is not read into again: a fresh one is taken unless the Writer is sequential or the input is finished", "loop-carried buffer is size.Get() on concurrent, not-done paths", why)
 		}
 	}
@@ -1162,6 +1104,32 @@ func ruleReaderShutdown(c *Check, p *Program, rule string) {
 			loopGuard = true
 		}
 	}
+	if !loopGuard {
+		// through a local predicate (a function literal of the enclosing function, or a helper)
+		for _, ci := range callsIn(readerLoop) {
+			var t *ssa.Function
+			if mc, isMC := ci.Common().Value.(*ssa.MakeClosure); isMC {
+				t, _ = mc.Fn.(*ssa.Function)
+			} else if f := staticCallee(ci); f != nil && inModule(f) {
+				t = f
+			} else if ld, isL := ci.Common().Value.(*ssa.UnOp); isL && ld.Op == token.MUL {
+				for _, src := range capturedSources(ld) {
+					if mc, isMC := src.(*ssa.MakeClosure); isMC {
+						t, _ = mc.Fn.(*ssa.Function)
+					}
+				}
+			} else if fv, isFV := ci.Common().Value.(*ssa.FreeVar); isFV {
+				_ = fv
+			}
+			if t != nil {
+				for _, cj := range callsIn(t) {
+					if calleeIs(cj, pkgStream, "Blocks.ErrorR") {
+						loopGuard = true
+					}
+				}
+			}
+		}
+	}
 	c.Cond(loopGuard, rule, "initR.reader#stops-on-error", p.Pos(readerLoop.Pos()), "the reader goroutine re-checks the error latch so that it stops submitting blocks after a failure", "ErrorR() consulted in the loop", "the reader loop never consults the error latch")
 	// collector: answers the sentinel by close(c); closes the queue on return; closes each delivered c
 	// every buffer forwarded to the consumer is followed, on all paths to the next iteration or
@@ -1502,24 +1470,55 @@ func exploreBoolStatesStep(fn *ssa.Function, raise func(from *ssa.BasicBlock, k 
 	if len(fn.Blocks) == 0 {
 		return
 	}
-	var bphis []*ssa.Phi
+	// Tracked variables, each with a value in {'t','f','?'}:
+	//  - boolean phis;
+	//  - phis of pointer-like type (channel, pointer, slice, map, func, interface), where 't' means nil;
+	//  - boolean variables that live in a cell (captured by a function literal): loads see the last store, a call
+	//    makes a captured cell unknown, and a branch on an unknown cell is explored once per outcome with the
+	//    outcome remembered until the next store or call.
+	isBoolT := func(t types.Type) bool {
+		bt, ok := t.Underlying().(*types.Basic)
+		return ok && bt.Kind() == types.Bool
+	}
+	isNilable := func(t types.Type) bool {
+		switch t.Underlying().(type) {
+		case *types.Chan, *types.Pointer, *types.Slice, *types.Map, *types.Signature, *types.Interface:
+			return true
+		}
+		return false
+	}
+	idx := map[ssa.Value]int{}
+	nilPhi := map[ssa.Value]bool{}
+	var cells []*ssa.Alloc
+	captured := map[ssa.Value]bool{}
 	allInstrs(fn, func(in ssa.Instruction) {
-		if ph, ok := in.(*ssa.Phi); ok {
-			if bt, isB := ph.Type().Underlying().(*types.Basic); isB && bt.Kind() == types.Bool {
-				bphis = append(bphis, ph)
+		switch x := in.(type) {
+		case *ssa.Phi:
+			if isBoolT(x.Type()) {
+				idx[x] = len(idx)
+			} else if isNilable(x.Type()) {
+				idx[x] = len(idx)
+				nilPhi[x] = true
+			}
+		case *ssa.Alloc:
+			if pt, ok := x.Type().Underlying().(*types.Pointer); ok && isBoolT(pt.Elem()) {
+				idx[x] = len(idx)
+				cells = append(cells, x)
+			}
+		case *ssa.MakeClosure:
+			for _, b := range x.Bindings {
+				captured[b] = true
 			}
 		}
 	})
-	idx := map[*ssa.Phi]int{}
-	for i, ph := range bphis {
-		idx[ph] = i
-	}
 	type state struct {
 		b   *ssa.BasicBlock
 		ev  bool
-		val string // per boolean phi: 't', 'f', '?'
+		val string
 	}
-	evalBool := func(v ssa.Value, val []byte) byte {
+	// evalBool: the value of a condition, and (when it is unknown and hinges on one cell) that cell and the polarity
+	var evalBool func(v ssa.Value, val []byte) (byte, int, bool)
+	evalBool = func(v ssa.Value, val []byte) (byte, int, bool) {
 		neg := false
 		for i := 0; i < 4; i++ {
 			if u, ok := v.(*ssa.UnOp); ok && u.Op == token.NOT {
@@ -1529,6 +1528,7 @@ func exploreBoolStatesStep(fn *ssa.Function, raise func(from *ssa.BasicBlock, k 
 			break
 		}
 		r := byte('?')
+		cell := -1
 		switch x := v.(type) {
 		case *ssa.Const:
 			if x.Value != nil && x.Value.Kind() == constant.Bool {
@@ -1539,8 +1539,30 @@ func exploreBoolStatesStep(fn *ssa.Function, raise func(from *ssa.BasicBlock, k 
 				}
 			}
 		case *ssa.Phi:
-			if i, ok := idx[x]; ok {
+			if i, ok := idx[x]; ok && !nilPhi[x] {
 				r = val[i]
+			}
+		case *ssa.UnOp:
+			if x.Op == token.MUL {
+				if i, ok := idx[x.X]; ok {
+					r = val[i]
+					if r == '?' {
+						cell = i
+					}
+				}
+			}
+		case *ssa.BinOp:
+			if x.Op == token.EQL || x.Op == token.NEQ {
+				for _, pr := range [][2]ssa.Value{{x.X, x.Y}, {x.Y, x.X}} {
+					if isNilConst(pr[1]) {
+						if i, ok := idx[pr[0]]; ok && nilPhi[pr[0]] {
+							r = val[i]
+							if x.Op == token.NEQ {
+								neg = !neg
+							}
+						}
+					}
+				}
 			}
 		}
 		if neg {
@@ -1551,10 +1573,28 @@ func exploreBoolStatesStep(fn *ssa.Function, raise func(from *ssa.BasicBlock, k 
 				r = 't'
 			}
 		}
+		return r, cell, neg
+	}
+	// the value an incoming edge gives to a phi
+	edgeVal := func(ph *ssa.Phi, e ssa.Value, old []byte) byte {
+		if nilPhi[ph] {
+			if isNilConst(e) {
+				return 't'
+			}
+			if i, ok := idx[e]; ok && nilPhi[e] {
+				return old[i]
+			}
+			switch e.(type) {
+			case *ssa.MakeChan, *ssa.MakeSlice, *ssa.MakeMap, *ssa.MakeClosure, *ssa.Alloc, *ssa.MakeInterface:
+				return 'f'
+			}
+			return '?'
+		}
+		r, _, _ := evalBool(e, old)
 		return r
 	}
 	seen := map[state]bool{}
-	init := make([]byte, len(bphis))
+	init := make([]byte, len(idx))
 	for i := range init {
 		init[i] = '?'
 	}
@@ -1563,7 +1603,7 @@ func exploreBoolStatesStep(fn *ssa.Function, raise func(from *ssa.BasicBlock, k 
 		from *ssa.BasicBlock
 	}
 	work := []item{{state{fn.Blocks[0], false, string(init)}, nil}}
-	for steps := 0; len(work) > 0 && steps < 100000; steps++ {
+	for steps := 0; len(work) > 0 && steps < 200000; steps++ {
 		it := work[len(work)-1]
 		work = work[:len(work)-1]
 		b := it.st.b
@@ -1581,7 +1621,7 @@ func exploreBoolStatesStep(fn *ssa.Function, raise func(from *ssa.BasicBlock, k 
 						break
 					}
 					if i, ok := idx[ph]; ok {
-						val[i] = evalBool(ph.Edges[pi], old)
+						val[i] = edgeVal(ph, ph.Edges[pi], old)
 					}
 				}
 				break
@@ -1595,11 +1635,27 @@ func exploreBoolStatesStep(fn *ssa.Function, raise func(from *ssa.BasicBlock, k 
 		evOut := st.ev
 		for _, in := range b.Instrs {
 			evOut = step(in, evOut)
+			switch x := in.(type) {
+			case *ssa.Store:
+				if i, ok := idx[x.Addr]; ok {
+					val[i], _, _ = evalBool(x.Val, val)
+				}
+			case ssa.CallInstruction:
+				if _, isB := x.Common().Value.(*ssa.Builtin); !isB {
+					for _, cl := range cells {
+						if captured[cl] {
+							val[idx[cl]] = '?'
+						}
+					}
+				}
+			}
 		}
 		ifi, isIf := b.Instrs[len(b.Instrs)-1].(*ssa.If)
 		for k, su := range b.Succs {
+			next := val
 			if isIf && len(b.Succs) == 2 {
-				switch evalBool(ifi.Cond, val) {
+				r, cell, neg := evalBool(ifi.Cond, val)
+				switch r {
 				case 't':
 					if k == 1 {
 						continue
@@ -1608,13 +1664,27 @@ func exploreBoolStatesStep(fn *ssa.Function, raise func(from *ssa.BasicBlock, k 
 					if k == 0 {
 						continue
 					}
+				default:
+					if cell >= 0 {
+						// an unknown cell: this edge fixes its value until the next store or call
+						next = append([]byte{}, val...)
+						truth := k == 0
+						if neg {
+							truth = !truth
+						}
+						if truth {
+							next[cell] = 't'
+						} else {
+							next[cell] = 'f'
+						}
+					}
 				}
 			}
 			if skipEdge != nil && skipEdge(b, k) {
 				continue
 			}
 			ev := evOut || (raise != nil && raise(b, k))
-			work = append(work, item{state{su, ev, string(val)}, b})
+			work = append(work, item{state{su, ev, string(next)}, b})
 		}
 	}
 }
